@@ -262,7 +262,9 @@ func c02StringSources() []c02Src {
 	var out []c02Src
 	for _, s := range []string{`"a" + "b"`, `"a" + "b" + "c"`, `"a" + ("b" + "c")`, `"a" + "b" + S`, `S + "a" + "b"`, `S + ("a" + "b")`, `("a" + "b") == S`, `("a" + "bc") == "abc"`,
 		`["a" + "b", "c"]`, `("a" + "b") in ["ab"]`, `("a" + "b") in AS`, `"" + ""`, `len("a" + "b")`, `("a" + "b")[0:1]`, `("ab" + "c") matches "a.c"`, `("a" + "b") contains "b"`,
-		`"a" + 1`, `Concat("a" + "b", "c")`, `{("a" + "b"): 1}`, `MI["a" + ""]`, `St["X" + ""]`, `("a" + "b") startsWith "a"`, `"x" + "y" < S`} {
+		`"a" + 1`, `Concat("a" + "b", "c")`, `{("a" + "b"): 1}`, `MI["a" + ""]`, `St["X" + ""]`, `("a" + "b") startsWith "a"`, `"x" + "y" < S`,
+		// a pattern that becomes a literal only by folding: valid, and INVALID (a run-time error where it is evaluated, none where it is not)
+		`S matches ("a" + ".c")`, `S matches ("[a-" + "z")`, `false and S matches ("[a-" + "z")`, `B2 ? S matches ("^(foo|bar" + "") : "skipped"`, `B ? S matches ("^(foo|bar" + "") : "skipped"`} {
 		out = append(out, c02Src{"string-concat", s})
 	}
 	return out
